@@ -1,8 +1,8 @@
 (* Entry.v — the single entry point of the executable model, over the universal value [sx].
    dispatch code arg: the code selects the entry point; each area owns its own Entry<Area>.v.
    Used identically by the extracted OCaml binary and by generated cases files (Eval vm_compute).
-   Code ranges: 17 Like; 100-199 Csv; 200-249 Reader (py + js + utf8); 250-259 reader spec + splitter + writer; 300-499 Engine; 500-599 Parser/Header (560-561 JsKey/Utf16, 565-566 JsSort, 570 NumLit); 600-699 Frontends/Isolation *)
-From RBQL Require Import Base Sx EntryLike EntryCsv EntryReader EntryTable EntryEngine EntryParser EntryHeader EntryHeaderJs EntryJoin EntryFront EntryJsKey EntryNumLit EntryJsSort.
+   Code ranges: 17 Like; 100-199 Csv; 200-249 Reader (py + js + utf8; 230-239 text layer); 250-259 reader spec + splitter + writer; 300-499 Engine; 500-599 Parser/Header (560-561 JsKey/Utf16, 565-566 JsSort, 570 NumLit); 600-699 Frontends/Isolation *)
+From RBQL Require Import Base Sx EntryLike EntryCsv EntryReader EntryTextLayer EntryTable EntryEngine EntryParser EntryHeader EntryHeaderJs EntryJoin EntryFront EntryJsKey EntryNumLit EntryJsSort.
 From RBQL Require Import EntryVarSpell.     (* 535-537 variable spellings (C08) *)
 
 Definition first_some (l : list (option sx)) : sx :=
@@ -12,6 +12,6 @@ Definition first_some (l : list (option sx)) : sx :=
   end.
 
 Definition dispatch (code : N) (x : sx) : sx :=
-  first_some [dispatch_like code x; dispatch_csv code x; dispatch_reader code x; dispatch_table code x;
+  first_some [dispatch_like code x; dispatch_csv code x; dispatch_reader code x; dispatch_textlayer code x; dispatch_table code x;
               dispatch_engine code x; dispatch_parser code x; dispatch_header code x; dispatch_headerjs code x; dispatch_join code x; dispatch_front code x; dispatch_jskey code x; dispatch_numlit code x; dispatch_jssort code x;
               dispatch_varspell code x].
